@@ -160,9 +160,9 @@ static OpRes op_dist_add(Case &c, Draw &d, hwloc_topology_t t, const OpOpts &o) 
   if (mixed || n < 1) { auto v = all_objs(t); int nb = d.range(2, 5); for (int i = 0; i < nb; i++) { hwloc_obj_t x = v[d.raw() % v.size()]; bool dup = false; for (auto y : objs) if (y == x) dup = true; if (!dup && x->type != HWLOC_OBJ_MISC && x->type != HWLOC_OBJ_MACHINE) objs.push_back(x); } }
   else { int nb = d.range(0, 9) == 0 ? d.range(0, 1) : d.range(2, n < 8 ? n : 8); if (nb > n) nb = n; int start = d.range(0, n - nb); for (int i = 0; i < nb; i++) objs.push_back(hwloc_get_obj_by_type(t, ty, start + i)); }
   size_t nb = objs.size(); std::vector<hwloc_uint64_t> vals(nb * nb + 1, 20);
-  int shape = d.range(0, 2); size_t half = nb >= 2 ? 1 + d.raw() % (nb - 1) : 1;
+  int shape = d.range(0, 3); size_t half = nb >= 2 ? 1 + d.raw() % (nb - 1) : 1; size_t in = 1 + d.range(0, 2), out = in * (2 + d.range(0, 1));   // shape 3: nested clusters (inner size `in`, outer size `out`): two Group levels
   for (size_t i = 0; i < nb; i++) for (size_t j = 0; j < nb; j++)
-    vals[i * nb + j] = shape == 0 ? (i == j ? 10 : ((i < half) == (j < half)) ? 12 : 40)   // symmetric, clustered: triggers grouping
+    vals[i * nb + j] = shape == 3 ? (i == j ? 10 : i / in == j / in ? 20 : i / out == j / out ? 40 : 80) : shape == 0 ? (i == j ? 10 : ((i < half) == (j < half)) ? 12 : 40)   // symmetric, clustered: triggers grouping
                      : shape == 1 ? (i == j ? 1 : 1 + (d.raw() % 7)) : ((hwloc_uint64_t)d.raw() << d.range(0, 30));
   unsigned long kind; int kw = d.range(0, 9);
   if (kw < 7) kind = (d.chance(1, 2) ? HWLOC_DISTANCES_KIND_FROM_USER : HWLOC_DISTANCES_KIND_FROM_OS) | (d.chance(1, 2) ? HWLOC_DISTANCES_KIND_VALUE_LATENCY : d.chance(1, 2) ? HWLOC_DISTANCES_KIND_VALUE_BANDWIDTH : HWLOC_DISTANCES_KIND_VALUE_HOPS);
@@ -194,7 +194,8 @@ static OpRes op_dist_add(Case &c, Draw &d, hwloc_topology_t t, const OpOpts &o) 
 }
 
 static OpRes op_dist_remove(Case &c, Draw &d, hwloc_topology_t t) {
-  OpRes r; r.kind = OP_DIST_REMOVE; int w = d.range(0, 2);
+  OpRes r; r.kind = OP_DIST_REMOVE; int w = d.range(0, 3);
+  if (w == 3) { static const hwloc_obj_type_t tys[] = {HWLOC_OBJ_PU, HWLOC_OBJ_NUMANODE, HWLOC_OBJ_CORE, HWLOC_OBJ_PACKAGE, HWLOC_OBJ_GROUP, HWLOC_OBJ_L2CACHE, HWLOC_OBJ_PCI_DEVICE}; hwloc_obj_type_t ty = d.pick(tys); r.rc = hwloc_distances_remove_by_type(t, ty); r.desc = strf("distances_remove_by_type(%s)=%d", hwloc_obj_type_string(ty), r.rc); r.err = errno; if (r.rc == 0) r.ok = true; return r; }
   if (w == 0) { r.rc = hwloc_distances_remove(t); r.desc = strf("distances_remove()=%d", r.rc); }
   else if (w == 1) { int depth = d.chance(1, 2) ? HWLOC_TYPE_DEPTH_NUMANODE : d.range(0, hwloc_topology_get_depth(t) - 1); r.rc = hwloc_distances_remove_by_depth(t, depth); r.desc = strf("distances_remove_by_depth(%d)=%d", depth, r.rc); }
   else { unsigned nr = 1; struct hwloc_distances_s *ds = NULL; hwloc_distances_get(t, &nr, &ds, 0, 0); if (nr >= 1 && ds) { r.rc = hwloc_distances_release_remove(t, ds); r.desc = strf("distances_release_remove(first)=%d", r.rc); } else r.desc = "distances_release_remove(none)"; }
